@@ -56,6 +56,16 @@ func perProofUnit(p *core.Program, funcs []*ssa.Function) *proofUnit {
 		}
 		return u
 	}
+	if u.Core != u.CreditFn && callsDirectly(p, u.Core, u.CreditFn) && len(u.CreditFn.Blocks) == 1 {
+		// the credit is made by a tiny helper of the routine that tests the proof (tally.credit(prover, size)): the unit
+		// is that routine, the helper executed in line
+		u.Whole = true
+		u.Execs, u.Complete = p.AbstractExecutions(u.Core)
+		if !u.Complete {
+			u.Why = "the executions of the per-proof routine cannot be enumerated (loop or too many paths)"
+		}
+		return u
+	}
 	if u.Core == u.CreditFn {
 		u.Whole = true
 		u.Execs, u.Complete = p.AbstractExecutions(u.Core)
